@@ -42,16 +42,18 @@ def _acc(names, acc="s"):
 # ---- abstract generators: kind -> program with n items ---------------------------------------------------------
 
 def g_loc(n, pid):
-    """one function with n loop variables (locals), each assigned and read: Loc i, a Seq of more than n statements,
-    a DDecl of more than n locals.  (Locals of the abstract language are `let' chains or loop variables; a chain of
-    n lets cannot be written as JSON, n loops in a row can.)"""
-    names = ["l%d" % i for i in range(n)]
+    """one function with many locals, each assigned and read: Loc i, a Seq of more than n statements, a DDecl of more
+    than n locals.  Locals of the abstract language are `let' chains or loop variables; a chain of n lets cannot be
+    written as JSON (nesting limit), loops in a row can.  Every `for' loop costs about nine locals (the segment, its
+    generator, bounds, temporaries), so n / 6 loops give well over n locals at every level -- and stay below the 3000
+    stack slots the interpreter has for one frame (`Stack Growth Excessive!')."""
+    m = max(40, n // 6)
+    names = ["l%d" % i for i in range(m)]
     es = []
     for i, x in enumerate(names):
         c = prim("si.add", var("xp"), lit(SI, 3 * i + 1))
-        # the last loops show their variable, so that a confusion of index i with i mod 256 changes the output
         body = [{"e": "asg", "x": "s", "v": prim("si.add", var("s"), var(x))}]
-        if i >= n - 3 or i in (0, 255, 256, 257):
+        if i >= m - 3 or i % 9 == 0:
             body.append(_pr(var(x), SP, var("s")))
         es.append({"e": "for", "x": x, "lo": c, "hi": c, "body": {"e": "seq", "t": UNIT, "es": body}})
     body = {"e": "let", "x": "s", "t": SI, "v": lit(SI, 0), "body": {"e": "seq", "t": SI, "es": es + [var("s")]}}
